@@ -5,7 +5,7 @@ THEOREMS = [
     "C19_checker_sound", "C19_newroute_consistent", "C19_hop_passes_C09",
     "C19_newroute_pays_exact_fees", "C19_get_edge_sound",
     "C19_search_invariant_init", "C19_search_invariant", "C19_search_sound",
-    "C19_chain_stable", "C19_pops_sorted", "C19_findpath_sound",
+    "C19_chain_stable", "C19_pops_sorted", "C19_findpath_sound", "C19_findpath_route_ok",
 ]
 MODULE = "LV.Route.Props"
 TARGETS = ["theories/Route/Props.vo", "theories/Route/Exec.vo",
@@ -314,10 +314,13 @@ def run(ctx):
         "onion payload sizes are an oracle: the checker is given the byte sizes measured on the "
         "real sphinx path of the returned route",
         "float64 probability / getProbabilityBasedDist enter the Dijkstra theorems as the abstract "
-        "structure keyops with the laws keyops_ok (total order, p*e <= p for 0 <= e <= 1, distance "
-        "monotone in weight and antitone in probability) = monotonicity of IEEE-754 round-to-nearest "
-        "operations; hypothesis of C19_chain_stable / C19_pops_sorted / C19_findpath_sound, proved "
-        "for the exact instance ZK and checked on every replayed step for float64 (Coq primitive floats)",
+        "structure keyops with the laws keyops_ok (on the domain [0,1]: <= reflexive and transitive, "
+        "closed under *, p*e <= p, distance monotone in weight and antitone in probability) = "
+        "monotonicity of IEEE-754 round-to-nearest operations; hypothesis of C19_chain_stable / "
+        "C19_pops_sorted / C19_findpath_sound / C19_findpath_route_ok, proved for the exact instance "
+        "ZK and checked on every replayed step for float64",
+        "Coq primitive floats (Floats library, evaluated by vm_compute on hardware binary64) are used "
+        "ONLY by the search replay Route/DijkstraExec.v, not by any theorem",
         "container/heap is modelled as: Pop returns some entry that is minimal w.r.t. distanceHeap.Less",
         "C19_hop_passes_C09 is stated against Policy.Model (C09); height/bandwidth/update "
         "availability at forwarding time are hypotheses of that theorem"])
@@ -367,8 +370,16 @@ def run(ctx):
     # (4) correspondence
     checked = [c for c in rows if c["kind"] in ("route", "getedge")]
     terms = [case_term(c) for c in checked]
-    ok, bad, logs = coq_mismatches(ctx.uid(), IMPORTS, terms, scope="Z_scope",
-                                   shard=max(40, len(terms) // (2 * NCPU) + 1))
+    # both model evaluations (route rows; search traces, see 4b) run concurrently
+    sterms = [scase_term(c) for c in traced]
+    from concurrent.futures import ThreadPoolExecutor
+    with ThreadPoolExecutor(max_workers=2) as ex:
+        f1 = ex.submit(coq_mismatches, ctx.uid(), IMPORTS, terms, scope="Z_scope",
+                       shard=max(40, len(terms) // NCPU + 1))
+        f2 = ex.submit(coq_mismatches, ctx.uid() + "s", SIMPORTS, sterms, scope="Z_scope",
+                       mism="smismatches", shard=max(40, len(sterms) // NCPU + 1))
+        ok, bad, logs = f1.result()
+        sok, sbad, slogs = f2.result()
     if not ok:
         ctx.violation("correspondence_mismatch", "Route.Exec (model evaluation failed)",
                       {"logs": logs}, signature="model-eval", failing_input=False)
@@ -381,10 +392,6 @@ def run(ctx):
     # (4b) replay of the recorded search on the Dijkstra model (float64 = Coq
     # primitive floats): every expansion is a minimal pop, every processEdge
     # call is the model's relaxation, the unravelled chain is the returned path
-    sterms = [scase_term(c) for c in traced]
-    sok, sbad, slogs = coq_mismatches(ctx.uid() + "s", SIMPORTS, sterms, scope="Z_scope",
-                                      mism="smismatches",
-                                      shard=max(40, len(sterms) // (2 * NCPU) + 1))
     if not sok:
         ctx.violation("correspondence_mismatch", "Route.DijkstraExec (model evaluation failed)",
                       {"logs": slogs}, signature="search-model-eval", failing_input=False)
@@ -417,6 +424,12 @@ def run(ctx):
         "search_predicate_failures": nsfail,
         "search_replay_mismatches": len(sbad),
         "search_expansions": sum(sum(1 for e in c["evs"] if e[0] == 0) for c in traced),
+        "searches_with_a_node_relaxed_from_2+_pivots": sum(
+            1 for c in traced
+            if any(n > 1 for n in __import__("collections").Counter(
+                fr for fr, _to in {(e[1], e[2]) for e in c["evs"] if e[0] == 1}).values())),
+        "searches_with_5+_expansions": sum(
+            1 for c in traced if sum(1 for e in c["evs"] if e[0] == 0) >= 5),
         "search_processEdge_calls": sum(sum(1 for e in c["evs"] if e[0] == 1) for c in traced),
         "samples": [{"hops": c["hops"], "totalamt": c["totalamt"], "amt": c["amt"]} for c in routes[:2]],
     })
